@@ -30,6 +30,7 @@ class Broker:
         self.logs = {}          # topic -> [list of values per partition]
         self.committed = {}     # (group, topic, partition) -> offset
         self.calls = []         # every client call, in order
+        self.observer = None    # optional callable(event): lets a harness interleave calls with its own log
         self.clock = None
 
     def create(self, topic, npartitions):
@@ -44,6 +45,8 @@ class Broker:
 
     def log(self, *e):
         self.calls.append(e + ((self.clock() if self.clock else None),))
+        if self.observer is not None:
+            self.observer(e)
 
 
 BROKER = Broker()
